@@ -9,6 +9,10 @@ E1_NOTE = ("Trusted base: the shim threading layer (Lock/Condition/Thread/Event)
            "engine modules and in stdlib `queue` (bound by litmus tests and free-running conformance runs in the C07 check); "
            "atomicity of one CPython 3.12 bytecode on built-in objects; bounds as reported in the evidence file.")
 
+E2_NOTE = ("Trusted base: harness value stores on a logical clock (times strictly increase with every write), call functions that are injective term constructors; "
+           "the canonical-state quotient (time ranks + per-store correctness bit); runs inside the BFS use one worker, other operation orders come from the E1 part where stated; "
+           "dependent sources in the plan family are well formed (everything they depend on is upstream of the call that writes them); 'deletion of stored values' means values stored by runs, not pure sources.")
+
 CHECKS = {
     "C01": dict(
         engine="E1",
@@ -58,6 +62,47 @@ CHECKS = {
               "no call is dequeued+started after the interrupt when the caller ran whenever it could, observer exited, every thread exits, nothing runs after return."),
         design_ref="DESIGN.md section 4, C17", note=E1_NOTE + " A signal that lands inside C code is represented by the nearest bytecode boundary / modelled blocking wait of the calling thread.",
         technique="stateless model checking with interrupt injection at every scheduling point of the calling thread",
+    ),
+
+    "C03": dict(
+        engine="E2", category="model_checking",
+        text=("Explicit-state model checking with the real uberjob.run as transition function: for every plan of an exhaustive small family (<= 2 non-source slots of kind stored call / unstored call / "
+              "side-effect producer + dependent source, every edge kind between them, plus curated 4-6 node shapes; 3 slots in thorough) a BFS over canonical store states runs to a FIXPOINT under "
+              "{run with any output and any fresh_time gap, run failing at every operation index by exception or death, source update, stored-value deletion}. After every successful run in every "
+              "reachable state the output and every non-source store must equal an independent from-scratch evaluation."),
+        design_ref="DESIGN.md section 4, C03; section 3 E2", note=E2_NOTE,
+        technique="explicit-state model checking (BFS to fixpoint over canonical store states, implementation as transition function)",
+    ),
+    "C05": dict(
+        engine="E2", category="model_checking",
+        text=("Same fixpoint BFS as C03 with a declarative out-of-date oracle written from the property text (transitive ancestors, not the code's local propagation): in every reachable state and for every "
+              "output x fresh_time, the multiset of writes, executed calls, side-effect producers and reads of the real run must equal exactly what the oracle derives; an immediately repeated run must log nothing but modified-time queries."),
+        design_ref="DESIGN.md section 4, C05", note=E2_NOTE,
+        technique="explicit-state model checking (fixpoint BFS) against a declarative out-of-date oracle",
+    ),
+    "C08": dict(
+        engine="E2", category="model_checking",
+        text=("Same fixpoint BFS; from every reachable state every run is cut at EVERY operation index (call start, store read, write before/after it took effect, side-effect write, modified-time query) "
+              "by an exception (max_errors 0 and None) or by death (all later operations raise). After each cut: every store the stale rule would treat as up to date equals its from-scratch value, "
+              "and no store completely written before the cut looks out of date; every cut state is itself explored further (next runs are checked by the C03/C05 oracles)."),
+        design_ref="DESIGN.md section 4, C08", note=E2_NOTE,
+        technique="explicit-state model checking with exhaustive cut-point (fault) enumeration on every transition",
+    ),
+    "C09": dict(
+        engine="E2", category="model_checking",
+        text=("Same fixpoint BFS with normalising stores (read returns a value distinguishable from what was written): on the event log of every successful run in every reachable state, for each rewritten store: "
+              "write < read-back < start of every argument consumer, write < start of every plain dependent, every stored descendant rewritten later in the same run, out-of-date dependent source read only "
+              "after the calls it depends on ended; every call's recorded arguments and the run's output equal what the stores' read returned."),
+        design_ref="DESIGN.md section 4, C09", note=E2_NOTE,
+        technique="explicit-state model checking (fixpoint BFS) with ordering/provenance oracle on every run's event log",
+    ),
+    "C14": dict(
+        engine="E2", category="model_checking",
+        text=("Twin-world check inside the same fixpoint BFS: in every reachable state and for every output x fresh_time, a dry run on a twin world must log nothing but modified-time queries and leave the stores unchanged; "
+              "the returned physical plan is then executed alone (no registry, all its nodes requested) and must perform the same multiset of calls/reads/writes, obey the same ordering constraints, yield the same output "
+              "and leave the same stored values as the real run from that state."),
+        design_ref="DESIGN.md section 4, C14", note=E2_NOTE,
+        technique="explicit-state model checking (fixpoint BFS) with differential twin-world oracle",
     ),
 }
 
